@@ -246,7 +246,13 @@ def check(ctx: Ctx, aspects=("remove", "log", "pop")) -> None:
         if "remove" in aspects and "pop" in aspects and not nothing_to_do:
             for what, label in (("remove", "expired orders leave the queue"), ("pop", "expired buckets leave the expiry index")):
                 if not found[what]:
-                    ctx.violated(f, f.node, f"reaper: {label}", "present on every path that reaps", "missing on [" + p.describe()[:100] + "]")
+                    attr = "priority_queue" if what == "remove" else "expire_time_list"
+                    other = [e for e in p.walk_events(True) if (e.kind == "store" and e.attr == attr) or (e.kind in ("store", "del") and e.attr is None and e.base is not None and key(strip_ver(e.base)).endswith(attr))
+                             or (e.kind == "call" and e.data.get("mutates") is not None and key(strip_ver(e.data["mutates"])).endswith(attr) and e.name not in ("heapify",))]
+                    if other:
+                        ctx.unrec(f, f.node, f"reaper: {label}", f"self.{attr} is changed in a form that is not modelled ({', '.join(sorted({getattr(e, 'name', None) or e.kind for e in other}))})")
+                    else:
+                        ctx.violated(f, f.node, f"reaper: {label}", "present on every path that reaps", f"self.{attr} is left as it is on [" + p.describe()[:100] + "]")
         if "log" in aspects and not found["log"] and not nothing_to_do:
             ctx.violated(f, f.node, "reaper: one expiry record per expired order", "present on every path that reaps", "no record is built on [" + p.describe()[:100] + "]")
 
